@@ -1,5 +1,7 @@
 """Semi-asynchronous value iteration solver with different batch ordering strategies."""
 
+import os
+
 import chex
 import jax
 import jax.numpy as jnp
@@ -421,6 +423,17 @@ class SemiAsyncValueIteration(ValueIteration):
                 batched_states.shape[0],  # n_devices
                 batched_states.shape[1],  # n_batches
                 batched_states.shape[2],  # batch_size
+            )
+
+        if os.environ.get("MDPAX_VERIF") == "1":
+            # verification hook (no effect unless MDPAX_VERIF=1): record the state
+            # order used by this sweep (None = natural order)
+            if not hasattr(self, "_verif_orders"):
+                self._verif_orders = []
+            self._verif_orders.append(
+                None
+                if shuffled_state_idxs is None
+                else jax.device_get(shuffled_state_idxs).tolist()
             )
 
         # Process batches semi-asynchronously
